@@ -1,6 +1,8 @@
 package props
 
 import (
+	"fmt"
+	"os"
 	"go/ast"
 	"go/token"
 	"go/types"
@@ -53,6 +55,9 @@ func runC01(c *kit.Ctx) {
 		for _, v := range mergeValuations(edge) {
 			out := wl.run(v)
 			c.AddValuations(1)
+			if os.Getenv("SIOT_DEBUG_MERGE") != "" {
+				fmt.Printf("merge %s | %s | fx=%q unknown=%v paths=%d\n", w.Table, v.String(), out.fx, out.unknown, out.paths)
+			}
 			unknownAll = append(unknownAll, out.unknown...)
 			if out.normC != "" {
 				normConsts[w.Table] = out.normC
@@ -82,14 +87,14 @@ func runC01(c *kit.Ctx) {
 				o.Undecided("no successful path through the merge loop under this valuation")
 				continue
 			}
-			bad := ""
+			bad, isBad := "", false
 			for _, fx := range out.fx {
 				p := projectFx(fx, "wp:", "id:")
 				if !contains(allowed, p) {
-					bad = p
+					bad, isBad = p, true
 				}
 			}
-			if bad != "" {
+			if isBad {
 				what := describeFx(bad)
 				if len(out.unknown) > 0 {
 					what += " (on a branch of the unrelated condition `" + out.unknown[0] + "`)"
@@ -605,16 +610,16 @@ func c01Collapse(c *kit.Ctx, m *storeModel, r5 *kit.Rule) {
 		default:
 			want = []string{"", "1"}
 		}
-		bad := ""
+		bad, isBad := "", false
 		for k := range outs {
 			if !contains(want, k) {
-				bad = k
+				bad, isBad = k, true
 			}
 		}
 		switch {
 		case len(outs) == 0:
 			o.Undecided("loop not traversed")
-		case bad != "":
+		case isBad:
 			o.Violation("%s: the map entry is %s (expected %s)", name, map[string]string{"": "kept", "1": "replaced by the new point", "other": "set to something else"}[bad],
 				map[string]string{"": "kept", "1": "replaced"}[want[0]])
 		default:
